@@ -8,6 +8,7 @@ CONSTANTS
   CtxOf <- McCtxOf
   Removable <- SimRemovable
   BeginKinds <- AllKinds
+  KeepH <- SimH
   TrackH = "none"
   Tok = {0, 1, 2}
   MaxTx = 4
